@@ -117,7 +117,7 @@ Proof.
   - unfold od_batch, path, tailq, stage_gen, EVT, env, chess_env, chess_stage. cbn [e_gen].
     destruct (has_nq mode), (has_q mode);
       cbn [map concat N.leb N.compare Pos.compare Pos.compare_cont N.eqb Pos.eqb orb OD_NEW OD_PV OD_1 OD_2 OD_3 OD_4 OD_5 OD_6 OD_7 OD_8 app];
-      fold v; rewrite ?H1, ?H2, ?H3, ?H4, ?H5, ?H6, ?H7; cbn [unwrap app]; rewrite ?app_nil_r; reflexivity.
+      fold v; rewrite ?H1, ?H2, ?H3, ?H4, ?H5, ?H6, ?H7; cbn [unwrap app]; rewrite ?app_nil_r, <- ?app_assoc; reflexivity.
 Qed.
 
 Theorem od_batch_chess mode : exists l,
@@ -156,11 +156,16 @@ Proof.
   replace (has_nq 3) with true in G3 by reflexivity. replace (has_q 3) with true in G3 by reflexivity.
   intros H0.
   assert (Hin : In 0 ((P1 ++ K1 ++ M1) ++ P2 ++ C2 ++ K2 ++ M2)).
-  { unfold env, chess_env, chess_stage in H0. cbn [e_gen] in H0. fold v in H0.
-    repeat match type of H0 with context [if ?c then _ else _] => destruct c end;
-      rewrite ?H1, ?H2, ?H3, ?H4, ?H5, ?H6, ?H7 in H0; cbn [unwrap] in H0; try (destruct H0; fail);
-      repeat (apply in_or_app; first [left; assumption | right]); try assumption;
-      repeat (apply in_or_app; first [now left | right]). }
+  { unfold env, chess_env in H0. cbn [e_gen] in H0. unfold chess_stage in H0. fold v in H0.
+    rewrite !in_app_iff.
+    destruct (k =? OD_1); [rewrite H1 in H0; cbn [unwrap] in H0; tauto|].
+    destruct (k =? OD_2); [rewrite H2 in H0; cbn [unwrap] in H0; tauto|].
+    destruct (k =? OD_3); [rewrite H3 in H0; cbn [unwrap] in H0; tauto|].
+    destruct (k =? OD_5); [rewrite H4 in H0; cbn [unwrap] in H0; tauto|].
+    destruct (k =? OD_6); [rewrite H5 in H0; cbn [unwrap] in H0; tauto|].
+    destruct (k =? OD_7); [rewrite H6 in H0; cbn [unwrap] in H0; tauto|].
+    destruct (k =? OD_8); [rewrite H7 in H0; cbn [unwrap] in H0; tauto|].
+    cbn [unwrap] in H0. destruct H0. }
   destruct (mode_incl 3 _ G3 0 Hin) as [m [Hm E]].
   apply (pseudo_code_nz p m (legal_wfp p Hlegal) Hm). exact E.
 Qed.
